@@ -1077,3 +1077,144 @@ def r_widen_2d(rule, root=None):
         rule.bad("widen|entries", "pixel::Worker::new does not carry entries %s of cfg.mat() into the 4x4 transform (each (i, j) must land at (i', j') with 2 -> 3): a view with a perspective row / non-unit w is rendered as if it were affine" % missing, A.where(fn))
     else:
         rule.ok("the 3x3 view is embedded in the 4x4 transform entry by entry, z preserved", file=PIX, line=fn["ln"])
+
+
+# ---------------------------------------------------------------------------
+# axis roles of tile-local indices (C06 / C07)
+
+_AXIS_OF_SIZE = {"width": 0, "height": 1, "depth": 2}
+
+
+def _corner_axis(e):
+    """`<tile>.corner[K]` / `<tile>.corner.x` -> K"""
+    e = A.strip(e)
+    if e.get("k") == "Index" and A.unparse(A.strip(e["e"])).replace(" ", "").endswith(".corner"):
+        ix = A.strip(e["index"])
+        if ix.get("k") == "Lit" and str(ix.get("v", "")).isdigit():
+            return int(ix["v"])
+    if e.get("k") == "Field" and e.get("member") in ("x", "y", "z") and A.unparse(A.strip(e["e"])).replace(" ", "").endswith(".corner"):
+        return "xyz".index(e["member"])
+    return None
+
+
+def _index_roles(fn):
+    """locals that split one linear index over a square tile: `i = v % n` is the x offset, `j = v / n` the y offset
+    (both from the same v and n) -> {name: axis}"""
+    mods, divs = {}, {}
+    for s in A.find(fn["body"], "Let"):
+        n = A.binding_name(s["pat"])
+        init = A.strip(s.get("init")) if s.get("init") is not None else None
+        if not n or init is None or init.get("k") != "Binary" or init.get("op") not in ("%", "/"):
+            continue
+        key = (A.unparse(init["left"]).replace(" ", ""), A.unparse(init["right"]).replace(" ", ""))
+        (mods if init["op"] == "%" else divs).setdefault(key, []).append(n)
+    roles = {}
+    for key in set(mods) & set(divs):
+        for n in mods[key]:
+            roles[n] = 0
+        for n in divs[key]:
+            roles[n] = 1
+    return roles
+
+
+def r_axis_roles(rule, path, label, root=None):
+    """a tile-local x offset is added to the tile's x corner, compared with the width and passed in the first
+    position of an offset vector; the y offset goes with corner[1], the height, the second position"""
+    d = A.load(path, root)
+    n = 0
+    for fn in d["_fns"]:
+        if fn["_test"] or fn.get("body") is None:
+            continue
+        roles = _index_roles(fn)
+        if not roles:
+            continue
+        names = {0: "x", 1: "y", 2: "z"}
+        for b in A.find(fn["body"], "Binary"):
+            if b.get("op") not in ("+", "-"):
+                continue
+            for side, other in ((b["left"], b["right"]), (b["right"], b["left"])):
+                ax = _corner_axis(side)
+                o = A.strip(other)
+                if ax is None or o.get("k") != "Path" or len(o["segs"]) != 1 or o["segs"][0] not in roles:
+                    continue
+                n += 1
+                v = o["segs"][0]
+                if roles[v] != ax:
+                    rule.bad("%s|%s|corner[%d]+%s" % (label, fn["name"], ax, v), "%s %s adds `%s`, the tile-local %s offset, to the tile's %s corner (`%s`)" % (label, fn["name"], v, names[roles[v]], names[ax], A.unparse(b)), A.where(path, b))
+                else:
+                    rule.ok("%s %s: `%s` pairs the %s offset with the %s corner" % (label, fn["name"], A.unparse(b), names[ax], names[ax]), file=path, line=b["ln"])
+        for c in A.find(fn["body"], "Call"):
+            segs = A.path_segs(c["func"]) or []
+            if segs[-1:] != ["new"] or len(segs) < 2 or segs[-2] not in ("Vector2", "Vector3", "Point2", "Point3"):
+                continue
+            for pos, a in enumerate(c["args"]):
+                a = A.strip(a)
+                if a.get("k") == "Path" and len(a["segs"]) == 1 and a["segs"][0] in roles:
+                    n += 1
+                    v = a["segs"][0]
+                    if roles[v] != pos:
+                        rule.bad("%s|%s|vec|%s" % (label, fn["name"], v), "%s %s passes `%s`, the tile-local %s offset, as component %d of `%s`" % (label, fn["name"], v, names[roles[v]], pos, A.unparse(c)), A.where(path, c))
+                    else:
+                        rule.ok("%s %s: `%s` has `%s` in the %s position" % (label, fn["name"], A.unparse(c), v, names[pos]), file=path, line=c["ln"])
+        for b in A.find(fn["body"], "Binary"):
+            if b.get("op") not in ("<", "<=", ">", ">="):
+                continue
+            for side, other in ((b["left"], b["right"]), (b["right"], b["left"])):
+                axs = {_corner_axis(x) for x in A.find(side, None, lambda q: q.get("k") in ("Index", "Field"))} - {None}
+                ot = A.unparse(A.strip(other)).replace(" ", "")
+                ot = A.resolve_locals(fn["body"], A.strip(other)).replace(" ", "") if hasattr(A, "resolve_locals") else ot
+                size_ax = [ax for nm, ax in _AXIS_OF_SIZE.items() if nm + "()" in ot or ot == nm]
+                if len(axs) == 1 and len(size_ax) == 1:
+                    n += 1
+                    ax = next(iter(axs))
+                    if ax != size_ax[0]:
+                        rule.bad("%s|%s|bound|%d" % (label, fn["name"], ax), "%s %s compares a %s coordinate with the image's %s (`%s`)" % (label, fn["name"], names[ax], [k for k, v_ in _AXIS_OF_SIZE.items() if v_ == size_ax[0]][0], A.unparse(b)), A.where(path, b))
+                    else:
+                        rule.ok("%s %s: `%s` bounds %s by its own extent" % (label, fn["name"], A.unparse(b), names[ax]), file=path, line=b["ln"])
+    if n == 0:
+        rule.skip("%s axis roles" % label, "no tile-local offsets are split from a linear index (`i = v %% n`, `j = v / n`) in this file", count=True)
+
+
+def r_keep_going(rule, root=None):
+    """voxel `render_tile_recurse` answers `false` ("stop, this column of root tiles is finished") only when every
+    pixel of the tile is filled: either it already was, or the tile is full (`upper() < 0`) and has just been
+    filled.  An empty tile answers `true`: geometry may still lie in the root tiles below it."""
+    fn = worker_fn(VOX, "render_tile_recurse", root)
+    ivar = _interval_var(fn)
+    cases = A.result_cases(fn["body"])
+    if not cases:
+        rule.lost("the results of voxel render_tile_recurse")
+        return
+    nf = 0
+    for v, conds in cases:
+        t = A.unparse(v).replace(" ", "")
+        cs = [A.no_double_neg(c.replace(" ", "")) for c in conds]
+        if t == "true":
+            rule.ok("`true` under %s" % (cs[-1:] or ["the fall-through"]), file=VOX, line=v.get("ln", fn["ln"]))
+            continue
+        if t != "false":
+            rule.skip("voxel render_tile_recurse result `%s`" % t[:40], "not a literal", count=True)
+            continue
+        nf += 1
+        last = cs[-1] if cs else ""
+        full = ivar is not None and last.strip("()") in ("%s.upper()<0.0" % ivar, "0.0>%s.upper()" % ivar)
+        filled = ".all(" in last and "depth>=" in last and not last.startswith("!")
+        if full or filled:
+            rule.ok("`false` only once the tile is filled (%s)" % ("full tile" if full else "already filled"), file=VOX, line=v.get("ln", fn["ln"]))
+        else:
+            rule.bad("voxel|stop|%s" % ("empty" if "lower()>0.0" in last else "other"), "voxel render_tile_recurse answers `false` (stop rendering this column of root tiles) under `%s`; only a filled tile may stop the descent - an empty tile says nothing about the root tiles below it" % (last or "no condition"), A.where(VOX, v if isinstance(v, dict) and v.get("ln") else fn))
+    if nf == 0:
+        rule.lost("a `false` result of voxel render_tile_recurse (the early exit on filled tiles)")
+    # the caller stops the z loop on `false` only
+    rt = worker_fn(VOX, "render_tile", root)
+    t = txt(rt["body"])
+    brk = [b for b in A.find(rt["body"], "Break")]
+    if not brk:
+        rule.skip("voxel render_tile", "no early exit from its z loop", count=True)
+    else:
+        conds = A.enclosing_conds(rt["body"], brk[0]) or []
+        c = A.no_double_neg(conds[-1].replace(" ", "")) if conds else ""
+        if c.startswith("!") and "render_tile_recurse(" in c:
+            rule.ok("render_tile leaves its z loop when render_tile_recurse answers false", file=VOX, line=brk[0].get("ln", rt["ln"]))
+        else:
+            rule.bad("voxel|stop|caller", "voxel render_tile leaves its descending z loop under `%s`; it may only stop when render_tile_recurse answers false (column filled)" % c, A.where(VOX, brk[0]))
